@@ -148,6 +148,31 @@ impl Cov {
     /// The property's own alphabet {next, next_back, len/size_hint, observe, drop}: how many
     /// (reachable cursor state, operation) pairs were executed, and how many exist.
     pub fn core_transitions(&self) -> (usize, usize) {
+        let g = self.core_transitions_by_op();
+        (g.iter().map(|x| x.0).sum(), g.iter().map(|x| x.1).sum())
+    }
+    /// Per operation of the core alphabet [next, next_back, len|size_hint, observe, drop]: (executed, total).
+    pub fn core_transitions_by_op(&self) -> [(usize, usize); 5] {
+        let groups: [&[OpK]; 5] = [&[OpK::Next], &[OpK::NextBack], &[OpK::Len, OpK::SizeHint], &[OpK::Observe], &[OpK::Drop]];
+        let mut out = [(0usize, 0usize); 5];
+        for s in 0..=self.n {
+            for e in s..=self.n {
+                let c = self.cell(s, e) * N_OPK;
+                for (gi, g) in groups.iter().enumerate() {
+                    out[gi].1 += 1;
+                    if g.iter().any(|k| {
+                        let b = c + *k as usize;
+                        self.trans[b / 64] >> (b % 64) & 1 == 1
+                    }) {
+                        out[gi].0 += 1;
+                    }
+                }
+            }
+        }
+        out
+    }
+    #[allow(dead_code)]
+    fn core_transitions_old(&self) -> (usize, usize) {
         let groups: [&[OpK]; 5] = [&[OpK::Next], &[OpK::NextBack], &[OpK::Len, OpK::SizeHint], &[OpK::Observe], &[OpK::Drop]];
         let (mut hit, mut total) = (0, 0);
         for s in 0..=self.n {
@@ -180,6 +205,7 @@ pub struct Stats {
     pub runs_nontrivial: u64,
     pub runs_wide: u64,
     pub runs_plain: u64,
+    pub runs_zst: u64,
     pub ops_exec: u64,
     pub ops_skipped: u64,
     pub op_counts: [u64; N_OPK],
@@ -204,6 +230,7 @@ impl Stats {
             runs_nontrivial: 0,
             runs_wide: 0,
             runs_plain: 0,
+            runs_zst: 0,
             ops_exec: 0,
             ops_skipped: 0,
             op_counts: [0; N_OPK],
@@ -226,6 +253,7 @@ impl Stats {
         self.runs_nontrivial += o.runs_nontrivial;
         self.runs_wide += o.runs_wide;
         self.runs_plain += o.runs_plain;
+        self.runs_zst += o.runs_zst;
         self.ops_exec += o.ops_exec;
         self.ops_skipped += o.ops_skipped;
         for i in 0..N_OPK {
